@@ -838,7 +838,7 @@ def systematic_zip_container(data):
 # ---------------------------------------------------------------- XML parts
 
 ATTR_VALUES = [b"", b"0", b"1", b"-1", b"A1:XFD1048576", b"2147483648", b"4294967295", b"4294967296", b"18446744073709551615",
-               b"99999999999999999999", b"1e400", b"x", b"A0", b"1A", b"A1:", b":", b"A1:B2:C3", b"B2:A1", b"XFD1048577",
+               b"99999999999999999999", b"1e400", b"x", b"A0", b"1A", b"A1:", b":", b"A1:B2:C3", b"B2:A1", b"C1:A5", b"A5:C1", b"C2:A2", b"XFD1048577",
                b"ZZZZZZZ99999999999", b"A4294967295", b"A4294967296", b"FXSHRXX1", b"$A$1", b"&#0;", b"&bogus;", b"\xff\xfe"]
 TEXT_VALUES = [b"", b"0", b"-1", b"4294967295", b"4294967296", b"99999999999999999999", b"1e400", b"nan", b"x",
                b"&#xFFFFFFFF;", b"&bogus;", b"<![CDATA[", b"<x>", b"\xff\xfe", b"A" * 70000]
@@ -930,7 +930,7 @@ def systematic_xml(part, extra_attrs=()):
     yield "xml-encoding-utf16-declared", part.replace(b'encoding="UTF-8"', b'encoding="UTF-16"', 1)
 
 XLSX_EXTRA = [(b"r", b"ZZZZZZZ99999999999"), (b"r", b"A4294967295"), (b"r", b""), (b"t", b"s"), (b"t", b"shared"), (b"t", b"zz"), (b"s", b"99999999"),
-              (b"si", b"4294967296"), (b"si", b"0"), (b"ref", b"A1:XFD1048576"), (b"ref", b"B2:A1"), (b"count", b"4294967295"),
+              (b"si", b"4294967296"), (b"si", b"0"), (b"ref", b"A1:XFD1048576"), (b"ref", b"B2:A1"), (b"ref", b"C1:A5"), (b"ref", b"A5:C1"), (b"ref", b"C2:A2"), (b"ref", b"XFD1:A2"), (b"count", b"4294967295"),
               (b"uniqueCount", b"4294967295"), (b"headerRowCount", b"4294967295"), (b"totalsRowCount", b"4294967295"),
               (b"insertRow", b"1"), (b"numFmtId", b"4294967296"), (b"date1904", b"x"), (b"state", b"x"), (b"r:id", b"rId999"),
               (b"Target", b"../../../x"), (b"Target", b"/"), (b"Target", b""), (b"Id", b"")]
